@@ -67,7 +67,7 @@ def random_scope(rng, n):
             from datetime import datetime, timedelta, timezone
             from fractions import Fraction
             k = rng.randrange(0, 12)
-            kind = ["datetime", "str", "tuple", "bigint", "fraction", "naive datetime"][c % 6]
+            kind = ["datetime", "str", "tuple", "bigint", "fraction", "naive datetime", "ints probed by float", "floats probed by int", "mixed numbers", "decimal"][(c // 3) % 10]
             if kind == "datetime":
                 pool = [datetime(2020, 1, 1, tzinfo=timezone.utc) + timedelta(seconds=rng.randrange(0, 6), microseconds=rng.choice([0, 1, 999999])) for _ in range(max(1, k // 2 + 1))]
                 mk = lambda: rng.choice(pool + [pool[0] - timedelta(days=1), pool[-1] + timedelta(days=400 * 365)])
@@ -83,6 +83,19 @@ def random_scope(rng, n):
             elif kind == "bigint":
                 pool = [rng.choice([0, 1, -1, 2 ** 63, 2 ** 64 + 1, -2 ** 70, 10 ** 30]) for _ in range(max(1, k // 2 + 1))]
                 mk = lambda: rng.choice(pool + [2 ** 63 - 1, 10 ** 30 + 1, -10 ** 40])
+            elif kind == "ints probed by float":
+                pool = [rng.randrange(-4, 5) for _ in range(max(1, k // 2 + 1))]
+                mk = lambda: float(rng.choice(pool + [9, -9])) if rng.random() < 0.8 else rng.choice(pool) + 0.5
+            elif kind == "floats probed by int":
+                pool = [float(rng.randrange(-4, 5)) for _ in range(max(1, k // 2 + 1))]
+                mk = lambda: int(rng.choice(pool + [9.0, -9.0]))
+            elif kind == "mixed numbers":
+                pool = [rng.choice([1, 1.5, 2, 2.0, -1, -1.0, 0, 0.0, True]) for _ in range(max(1, k // 2 + 1))]
+                mk = lambda: rng.choice([1, 1.0, 2, 2.0, 0, -1, 1.5, 3, True])
+            elif kind == "decimal":
+                from decimal import Decimal
+                pool = [rng.choice([0.1, 0.5, 1.0, 2.5, -0.25]) for _ in range(max(1, k // 2 + 1))]
+                mk = lambda: rng.choice([Decimal("0.1"), Decimal("0.5"), Decimal("2.5"), Decimal("-0.25"), Decimal("7")])
             else:
                 pool = [Fraction(rng.randrange(-5, 6), rng.randrange(1, 4)) for _ in range(max(1, k // 2 + 1))]
                 mk = lambda: rng.choice(pool + [Fraction(1, 7), 3, -8])
